@@ -352,6 +352,9 @@ type Outcome struct {
 	Properties  []string            `json:"properties,omitempty"` // openapi.Dereference -> PropertiesInfos: key:optional
 	TypeOpenAPI map[string]string   `json:"type_openapi,omitempty"`
 	Escapes     []Escape            `json:"escapes,omitempty"`
+	// Again: every question is put to the same object a second time at the end; the first answer that
+	// differs from the one given before is described here ("" = all the same)
+	Again string `json:"again,omitempty"`
 }
 
 // Accepted reports whether Check() returned nil.
@@ -427,6 +430,27 @@ func ObserveBuilt(b *Built) *Outcome {
 			})
 		}
 	}
+	// the same questions again
+	b.trap("again", func() {
+		differs := func(op, first, second string) {
+			if o.Again == "" && first != second {
+				o.Again = fmt.Sprintf("%s answered %.300s first and %.300s when asked again", op, first, second)
+			}
+		}
+		differs("Check()", o.Check.String(), Describe(s.Check()).String())
+		n, err := s.Len()
+		differs("Len()", fmt.Sprintf("%d,%s", o.Len, o.LenErr), fmt.Sprintf("%d,%s", n, Describe(err)))
+		u, err := s.UsedUserTypes()
+		differs("UsedUserTypes()", fmt.Sprintf("%v,%s", o.Used, o.UsedErr), fmt.Sprintf("%v,%s", u, Describe(err)))
+		if a, err := s.GetAST(); err == nil && o.ASTErr == nil {
+			j, _ := json.Marshal(a)
+			differs("GetAST()", o.AST, string(j))
+		} else {
+			differs("GetAST()", o.ASTErr.String(), Describe(err).String())
+		}
+		ex, err := s.Example()
+		differs("Example()", fmt.Sprintf("%s,%s", o.Example, o.ExampleErr), fmt.Sprintf("%s,%s", ex, Describe(err)))
+	})
 	o.Escapes = b.Escapes
 	return o
 }
@@ -447,13 +471,13 @@ type Lex struct {
 }
 
 type DocOutcome struct {
-	Check   *ErrInfo `json:"check,omitempty"`
-	Len     uint     `json:"len"`
-	LenErr  *ErrInfo `json:"len_err,omitempty"`
-	Lexemes []Lex    `json:"lexemes,omitempty"`
-	LexErr  *ErrInfo `json:"lex_err,omitempty"` // error that ended the stream (nil = io.EOF)
-	Escapes []Escape `json:"escapes,omitempty"`
-	Unstable string  `json:"unstable,omitempty"`
+	Check    *ErrInfo `json:"check,omitempty"`
+	Len      uint     `json:"len"`
+	LenErr   *ErrInfo `json:"len_err,omitempty"`
+	Lexemes  []Lex    `json:"lexemes,omitempty"`
+	LexErr   *ErrInfo `json:"lex_err,omitempty"` // error that ended the stream (nil = io.EOF)
+	Escapes  []Escape `json:"escapes,omitempty"`
+	Unstable string   `json:"unstable,omitempty"`
 }
 
 func NewDoc(text string, trailing bool) schema.Document {
